@@ -69,9 +69,27 @@ def disturb(rng, idx=None):
         t.parse(io.BytesIO((hdr + body).encode("utf_8")))
         return t.convert()
 
+    def lookalikes():
+        # values as other toolkits spell them (xs:boolean, lower-case tokens, signed numbers, ISO dates): refused or not, reading one
+        # must not teach the converters anything they then use when writing
+        import xml.etree.ElementTree as ET
+        from ofxtools import Types as T
+        from ofxtools.models.base import Aggregate
+
+        for conv, texts in ((T.Bool(), ("TRUE", "FALSE", "true", "false", "1", "0", "yes", "no", "T", "F")), (T.OneOf("INFO", "WARN"), ("info", "Warn", "ERROR")),
+                            (T.Integer(3), ("+1", "1.0", "0x1", " 7")), (T.Decimal(2), ("1.234,5", "1e3", "$5")), (T.DateTime(), ("2020-01-01", "2020-01-01T00:00:00Z")),
+                            (T.Time(), ("12:00:00",)), (T.String(3), ("toolong",))):
+            for t in texts:
+                _quiet(lambda: conv.convert(t))
+        for t in ("TRUE", "FALSE", "true", "1"):
+            e = ET.Element("INCTRAN")
+            ET.SubElement(e, "INCLUDE").text = t
+            _quiet(lambda: Aggregate.from_etree(e))
+
     HISTORY.append(idx)
     _quiet(tokenizer)
     _quiet(file_parser)
+    _quiet(lookalikes)
     # a builder abandoned in the middle of a document, kept alive while the judged input is processed
     global _ABANDONED
     _ABANDONED = _quiet(lambda: _half_fed(TreeBuilder))
